@@ -161,6 +161,85 @@ func makeIntrinsics() map[string]intrinsic {
 	// registers a service's request types as sdk.Msg by reflection over the service descriptor: the same types orbiter
 	// registers explicitly one line earlier
 	m["github.com/cosmos/cosmos-sdk/types/msgservice.RegisterMsgServiceDesc"] = func(st *State, fr *frame, a []value, cc *ssa.CallCommon) value { return nil }
+	// ---- regexp: patterns are constants of the code; matching is simulated symbolically (regex.go) -------------------
+	regexOf := func(v value) *regexObj {
+		for {
+			switch x := v.(type) {
+			case *value:
+				if x == nil {
+					panic(pathEnd{kind: "panic", msg: "method call on a nil *regexp.Regexp"})
+				}
+				v = *x
+				continue
+			case *opaque:
+				if r, ok := x.info.(*regexObj); ok {
+					return r
+				}
+			}
+			panic(pathEnd{kind: "unsupported", msg: "regexp object not created by Compile / MustCompile"})
+		}
+	}
+	mkRegex := func(st *State, a []value, must bool) value {
+		pat, ok := a[0].(*Str).Concrete()
+		if !ok {
+			panic(pathEnd{kind: "unsupported", msg: "regexp with a symbolic pattern"})
+		}
+		r, err := compileRegex(pat)
+		if err != nil {
+			if must {
+				panic(pathEnd{kind: "panic", msg: "regexp.MustCompile: " + err.Error()})
+			}
+			return tuple{(*value)(nil), newErr(st, "regexp")}
+		}
+		p := new(value)
+		*p = &opaque{tag: "regexp", info: r}
+		if must {
+			return p
+		}
+		return tuple{p, iface{}}
+	}
+	m["regexp.MustCompile"] = func(st *State, fr *frame, a []value, cc *ssa.CallCommon) value { return mkRegex(st, a, true) }
+	m["regexp.Compile"] = func(st *State, fr *frame, a []value, cc *ssa.CallCommon) value { return mkRegex(st, a, false) }
+	regexMatch := func(st *State, r *regexObj, in *Str) *Term {
+		if in.Blob != nil {
+			panic(pathEnd{kind: "unsupported", msg: "regexp on an abstract string"})
+		}
+		if cs, ok := in.Concrete(); ok {
+			return BoolConst(r.re.MatchString(cs))
+		}
+		if r.beyondASCII() {
+			nonASCII := False
+			for i, b := range in.B {
+				nonASCII = Or(nonASCII, And(BVCmp("bvuge", b, BVConstI(0x80, 8)), BVCmp("bvult", BVConstI(int64(i), 64), in.Len)))
+			}
+			if st.decide(nonASCII) {
+				panic(pathEnd{kind: "unsupported", msg: "regexp with classes beyond ASCII on a string with multi-byte runes"})
+			}
+		}
+		t, err := r.match(in)
+		if err != nil {
+			panic(pathEnd{kind: "unsupported", msg: "regexp: " + err.Error()})
+		}
+		return t
+	}
+	m["(*regexp.Regexp).MatchString"] = func(st *State, fr *frame, a []value, cc *ssa.CallCommon) value {
+		return regexMatch(st, regexOf(a[0]), a[1].(*Str))
+	}
+	m["(*regexp.Regexp).Match"] = func(st *State, fr *frame, a []value, cc *ssa.CallCommon) value {
+		return regexMatch(st, regexOf(a[0]), asStr(a[1]))
+	}
+	m["regexp.MatchString"] = func(st *State, fr *frame, a []value, cc *ssa.CallCommon) value {
+		pat, ok := a[0].(*Str).Concrete()
+		if !ok {
+			panic(pathEnd{kind: "unsupported", msg: "regexp with a symbolic pattern"})
+		}
+		r, err := compileRegex(pat)
+		if err != nil {
+			return tuple{False, newErr(st, "regexp")}
+		}
+		return tuple{regexMatch(st, r, a[1].(*Str)), iface{}}
+	}
+	m["(*regexp.Regexp).String"] = func(st *State, fr *frame, a []value, cc *ssa.CallCommon) value { return StrConst(regexOf(a[0]).pat) }
 	m[V+"Aborts"] = func(st *State, fr *frame, a []value, cc *ssa.CallCommon) value {
 		cl := a[0].(*closure)
 		aborted := false
@@ -741,6 +820,32 @@ func makeIntrinsics() map[string]intrinsic {
 	for _, n := range []string{"IsCheckTx", "IsReCheckTx", "IsSigverifyTx"} {
 		m[sdkCtx+n] = func(st *State, fr *frame, a []value, cc *ssa.CallCommon) value { return False }
 	}
+	// CacheContext: a branch of the store. The branch gets its own copy of every summarised collection of the parent
+	// environment; the returned write function copies them back. (Objects that are not in the store — the harness'
+	// bank ledger — are not branched, natively neither: the models document that.)
+	m[sdkCtx+"CacheContext"] = func(st *State, fr *frame, a []value, cc *ssa.CallCommon) value {
+		parent := envOf(a[0])
+		st.envN++
+		child := st.envN
+		pp, cp := fmt.Sprintf("%d/", parent), fmt.Sprintf("%d/", child)
+		cpStore := func(c *collStore) *collStore {
+			return &collStore{keys: append([]value{}, c.keys...), orig: append([]value{}, c.orig...), vals: append([]value{}, c.vals...)}
+		}
+		for n, c := range st.colls {
+			if strings.HasPrefix(n, pp) {
+				st.colls[cp+n[len(pp):]] = cpStore(c)
+			}
+		}
+		write := goFunc(func(st *State, _ []value) value {
+			for n, c := range st.colls {
+				if strings.HasPrefix(n, cp) {
+					st.colls[pp+n[len(cp):]] = cpStore(c)
+				}
+			}
+			return nil
+		})
+		return tuple{&opaque{tag: "sdkctx", id: child}, write}
+	}
 	m[V+"NewEnv"] = func(st *State, fr *frame, a []value, cc *ssa.CallCommon) value {
 		st.envN++
 		return tuple{iface{t: errObjType, v: &opaque{tag: "ctx", id: st.envN}}, iface{t: errObjType, v: &opaque{tag: "storesvc", id: st.envN}}}
@@ -1187,6 +1292,36 @@ func makeIntrinsics() map[string]intrinsic {
 			res = tuple{&bigV{isNil: true}, False}
 		}
 		return res
+	}
+	// sdk.ParseCoinNormalized on a concrete string: <decimal amount><optional white space><denomination>; no denomination
+	// units are registered, so normalisation is the identity and the amount is truncated to its integer part
+	m["github.com/cosmos/cosmos-sdk/types.ParseCoinNormalized"] = func(st *State, fr *frame, a []value, cc *ssa.CallCommon) value {
+		in := a[0].(*Str)
+		cs, ok := in.Concrete()
+		if !ok || in.Blob != nil {
+			panic(pathEnd{kind: "unsupported", msg: "sdk.ParseCoinNormalized on a symbolic string"})
+		}
+		rt := st.funcOf(cc).Signature.Results().At(0).Type()
+		fail := func() value { return tuple{zero(rt), newErr(st, "parse-coin")} }
+		mm := parseCoinRe.FindStringSubmatch(strings.TrimSpace(cs))
+		if mm == nil {
+			return fail()
+		}
+		intPart, frac := mm[1], ""
+		if i := strings.IndexByte(intPart, '.'); i >= 0 {
+			intPart, frac = intPart[:i], intPart[i+1:]
+		}
+		if len(frac) > 18 {
+			return fail()
+		}
+		if intPart == "" {
+			intPart = "0"
+		}
+		bi, ok2 := new(big.Int).SetString(intPart, 10)
+		if !ok2 || bi.BitLen() > 256 {
+			return fail()
+		}
+		return tuple{structure{StrConst(mm[2]), &bigV{v: IntConst(bi)}}, iface{}}
 	}
 	m["github.com/cosmos/cosmos-sdk/types.AccAddressFromBech32"] = func(st *State, fr *frame, a []value, cc *ssa.CallCommon) value {
 		ok := st.freshVar("bech32_ok", SBool)
@@ -1863,6 +1998,8 @@ func callerName(fr *frame) string {
 }
 
 // asStr views a string or byte slice value as a Str.
+var parseCoinRe = regexp.MustCompile(`^([0-9]+(?:\.[0-9]+)?|\.[0-9]+)\s*([a-zA-Z][a-zA-Z0-9/:._-]{2,127})$`)
+
 func asStr(v value) *Str {
 	switch x := v.(type) {
 	case *Str:
